@@ -94,6 +94,9 @@ pub enum Op {
   Read { e: Expr },
   /// `m{key} = E`
   MapAssign { name: String, key: SV, e: Expr },
+  /// op-assignment through a non-bracket subscript: `r.f += E`, `t.2 -= E`, `m{key} *= E`
+  /// (`sel` is the rendered selector: ".f", ".2", `{"a"}`)
+  SelOpAssign { name: String, sel: String, op: Bop, e: Expr },
 }
 
 impl Op {
@@ -110,12 +113,13 @@ impl Op {
       Op::Destructure { .. } => "destructure",
       Op::Read { .. } => "read",
       Op::MapAssign { .. } => "map-assign",
+      Op::SelOpAssign { .. } => "selector-op-assign",
     }
   }
   pub fn target(&self) -> Option<&str> {
     match self {
       Op::Define { name, .. } | Op::Assign { name, .. } | Op::IdxAssign { name, .. } | Op::OpAssign { name, .. }
-      | Op::FieldAssign { name, .. } | Op::TupAssign { name, .. } | Op::MapAssign { name, .. } => Some(name),
+      | Op::FieldAssign { name, .. } | Op::TupAssign { name, .. } | Op::MapAssign { name, .. } | Op::SelOpAssign { name, .. } => Some(name),
       _ => None,
     }
   }
@@ -133,6 +137,7 @@ impl Op {
       Op::Destructure { names, e } => format!("({}) := {}", names.join(", "), e.render()),
       Op::Read { e } => e.render(),
       Op::MapAssign { name, key, e } => format!("{}{{{}}} = {}", name, render_lit(key), e.render()),
+      Op::SelOpAssign { name, sel, op, e } => format!("{}{} {}= {}", name, sel, op.sym(), e.render()),
     }
   }
 }
@@ -244,6 +249,11 @@ pub fn tree_matches(op: &Op, tree: &Program) -> bool {
     (Op::Destructure { names, .. }, MechCode::Statement(Statement::TupleDestructure(t))) =>
       t.vars.iter().map(|v| v.to_string()).collect::<Vec<_>>() == *names,
     (Op::Read { .. }, MechCode::Expression(_)) => true,
+    (Op::SelOpAssign { name, .. }, MechCode::Statement(Statement::OpAssign(a))) =>
+      a.target.name.to_string() == *name && match &a.target.subscript {
+        Some(s) if s.len() == 1 => matches!(&s[0], Subscript::Dot(_) | Subscript::DotInt(_) | Subscript::Brace(_)),
+        _ => false,
+      },
     (Op::MapAssign { name, .. }, MechCode::Statement(Statement::VariableAssign(a))) =>
       a.target.name.to_string() == *name && match &a.target.subscript {
         Some(s) if s.len() == 1 => matches!(&s[0], Subscript::Brace(b) if b.len() == 1),
